@@ -404,7 +404,8 @@ Definition restore_relay (e : bool) (c : cfg) (s : st) (ar : Z * relay) : st :=
 Fixpoint enum {A} (i : Z) (l : list A) : list (Z * A) :=
   match l with [] => [] | x :: t => (i, x) :: enum (i + 1) t end.
 Definition zeros8 : list Z := [0; 0; 0; 0; 0; 0; 0; 0].
-Definition boot (e : bool) (c : cfg) (s : st) : st :=
+(* l = the relays handled by the restore loop (all of them unless a motion-sensor input owns the relay, C06) *)
+Definition boot_l (e : bool) (c : cfg) (l : list (Z * relay)) (s : st) : st :=
   (* RAM is fresh; `s` carries now, the flash image, the outputs so far and the (static) staircase times *)
   let s1 := t_arm TUP UPTIME_POLL_MS true
               (set_upc 0 (set_upl 0 (set_seqc 0 (set_li 0 (set_tcd tmr0 (set_tsv tmr0 (set_tup tmr0 s))))))) in
@@ -412,11 +413,13 @@ Definition boot (e : bool) (c : cfg) (s : st) : st :=
   let s3 := set_slots (repeat slot_free 8) (set_delay 0 s2) in
   let s4 := set_chfl (if c_lateflags c then map (fun _ => 0) (c_relays c) else map r_chfl (c_relays c)) s3 in
   let s5 := set_obuf [] (set_regreq false (set_queue [] (set_conn false (set_reg false (set_gout 0 s4))))) in
-  let s6 := fold_left (restore_relay e c) (enum 0 (c_relays c)) s5 in
+  let s6 := fold_left (restore_relay e c) l s5 in
   (* devconn_init: last_response = uptime_sec() (a clock reading), then it arms its watchdog (disarmed again by
      the offline harness) *)
   let s7 := fst (uptime_usec s6) in
   set_seqc (seqc s7 + 1) s7.
+
+Definition boot (e : bool) (c : cfg) (s : st) : st := boot_l e c (enum 0 (c_relays c)) s.
 
 Definition pad8 (l : list Z) : list Z := firstn 8 (l ++ zeros8).
 Definition init (c : cfg) : st :=
